@@ -220,11 +220,48 @@ def run(F, chk):
     chk.floor(R3, 12, "(recursive edges + graph-walk loops)")
 
     # ---------------------------------------------------------------- R15.4
+    for fn, n, sidx, kind, ok, note in header_range_guards(F):
+        if note:
+            chk.note(note)
+            continue
+        chk.instance(R4, ok=ok, sample={"fn": fn["name"], "index": sidx, "kind": kind})
+        if not ok:
+            chk.violation("R15.4", "C15/R15.4:%s:%s" % (fn["name"].split("<")[0], sidx), where(fn, n),
+                          "%s subscripts a table with the %s index `%s` without an upper-bound test" % (
+                              fn["name"], {"param": "caller-supplied", "ref": "reference-derived"}.get(kind, "file-table-derived"), sidx))
+    chk.floor(R4, 8)
+
+    chk.assumptions += [
+        "pointers handed out by block payload classes (HasX()/XRef() pairs, index-tested accessors) follow those classes' own "
+        "invariants and are not lookup results",
+        "a local that is not address-taken keeps its nullness between a test and a use unless assigned",
+        "pointer parameters of public entry points are the caller's contract",
+    ]
+    chk.extra["explanation"] = ("necessary structural conditions for crash-freedom under corrupted references, exhaustively "
+                                "checked over every dereference, downcast, recursive edge, graph-walk loop and header-table "
+                                "subscript in scope; heap safety of arbitrary index arithmetic elsewhere is not decided")
+
+
+def header_range_guards(F):
+    """(fn, node, index, kind, ok, note) for every subscript in NiHeader methods by a caller-supplied, reference-derived or
+    file-table-derived index"""
     for fid in sorted(F.fns):
         fn = F.fns[fid]
         if fn.get("cls") != "nifly::NiHeader" or fn.get("tmpl") == "pattern":
             continue
         pids = {p["id"] for p in fn.get("params", [])}
+        # locals that hold a value read out of a header table (file-derived): `t = blockTypeIndices[i]`, `t = GetBlockTypeIndex(i)`
+        derived = {}
+        for d in walk(fn.get("body") or {}):
+            if d["k"] == "Decl":
+                for v in d.get("vars", []):
+                    i0 = peel(v.get("init")) if is_node(v.get("init")) else None
+                    if not is_node(i0):
+                        continue
+                    if i0["k"] == "Subscript" and _hdr_table(i0["base"]):
+                        derived[v["id"]] = show(i0)
+                    elif i0["k"] == "Call" and i0.get("cls") == "nifly::NiHeader" and i0.get("short") in ("GetBlockTypeIndex",):
+                        derived[v["id"]] = show(i0)
         subs = []
         for n in walk(fn.get("body") or {}):
             idx = None
@@ -240,10 +277,12 @@ def run(F, chk):
                 kind = "param"
             elif is_node(i) and i["k"] == "Member" and i.get("name") == "index" and i.get("owner") == "nifly::NiRef":
                 kind = "ref"
+            elif is_node(i) and i["k"] == "Ref" and i.get("id") in derived:
+                kind = "table-derived"
             if kind == "param" and not fn.get("const") and fn["short"] not in ("SetBlockOrder", "BlockDeleted"):
                 # index parameters of editing operations (DeleteBlock, ReplaceBlock, …) are the caller's contract:
                 # edits are outside C15's quantifier (loading, querying, saving)
-                chk.note("caller-contract index parameter, not checked: %s `%s`" % (fn["name"], show(i)))
+                yield fn, n, show(i), kind, True, "caller-contract index parameter, not checked: %s `%s`" % (fn["name"], show(i))
                 continue
             if kind:
                 subs.append((n, i, kind))
@@ -257,22 +296,25 @@ def run(F, chk):
             i, kind = info[id(n)]
             s = show(i)
             ok = all(_upper_bounded(st, s) for st in sts)
-            chk.instance(R4, ok=ok, sample={"fn": fn["name"], "index": s, "kind": kind})
-            if not ok:
-                chk.violation("R15.4", "C15/R15.4:%s:%s" % (fn["name"].split("<")[0], s), where(fn, n),
-                              "%s subscripts a table with the %s index `%s` without an upper-bound test" % (
-                                  fn["name"], "caller-supplied" if kind == "param" else "reference-derived", s))
-    chk.floor(R4, 8)
+            yield fn, n, s, kind, ok, None
 
-    chk.assumptions += [
-        "pointers handed out by block payload classes (HasX()/XRef() pairs, index-tested accessors) follow those classes' own "
-        "invariants and are not lookup results",
-        "a local that is not address-taken keeps its nullness between a test and a use unless assigned",
-        "pointer parameters of public entry points are the caller's contract",
-    ]
-    chk.extra["explanation"] = ("necessary structural conditions for crash-freedom under corrupted references, exhaustively "
-                                "checked over every dereference, downcast, recursive edge, graph-walk loop and header-table "
-                                "subscript in scope; heap safety of arbitrary index arithmetic elsewhere is not decided")
+
+def _hdr_table(e):
+    while is_node(e):
+        k = e["k"]
+        if k == "Member":
+            if e.get("owner") == "nifly::NiHeader" and e.get("name") in ("blockTypeIndices", "blockSizes", "blocks", "blockTypes", "strings"):
+                return True
+            e = e.get("base")
+        elif k == "Unary" and e["op"] == "*":
+            e = e["e"]
+        elif k == "Cast":
+            e = e["e"]
+        elif k == "OpCall" and e.get("args"):
+            e = e["args"][0]
+        else:
+            return False
+    return False
 
 
 def _type_tested(st, obj, tgt, F):
